@@ -16,17 +16,22 @@ MC_BaseCalls == <<
     Call("Slice", 4, 0, "", NoLit, 8, 11, NoneI, ""),
     Call("Slice", 4, 0, "", NoLit, NoneI, NoneI, 5, ""),
     Call("SBin", 2, 1, "+", NoLit, 0, 0, 0, ""),
-    Call("SBin", 10, 3, "-", NoLit, 0, 0, 0, "")
+    Call("SBin", 10, 3, "-", NoLit, 0, 0, 0, ""),
+    Call("Slice", 4, 0, "", NoLit, 0, 4, 2, ""),
+    Call("Slice", 4, 0, "", NoLit, 0, 4, 3, ""),
+    Call("Sum", 12, 0, "", NoLit, 0, 0, 0, ""),
+    Call("MGet", 6, 0, "", NoLit, 0, 2, 1, ""),
+    Call("MGet", 6, 0, "", NoLit, 0, 3, 1, "")
   >>
 MC_AllNames == {<<"x2">>, <<"x10">>, <<"x1y">>} \cup {<<"w", i>> : i \in 0..10} \cup {<<"u", 0>>, <<"u", 1>>}
                \cup {<<"G", 0, 0>>, <<"G", 0, 1>>, <<"G", 1, 1>>}
 MC_En == {"Sum", "LinComb", "Dot", "Index", "MGet", "Diagonal", "Transpose", "CmpLit", "Cmp", "Problem",
-          "SBin", "Trace", "VBinLit", "Norm"}
+          "SBin", "VBinLit"}
 MC_ScalarLits == {LitS("int", Q(2, 1))}
 MC_ArrayLits == {Lit("arr", <<Q(1,1), Q(-2,1), Q(3,1)>>, <<3>>), Lit("arr", <<Q(2,1), Q(5,1)>>, <<2>>),
                  Lit("arr", <<Q(1,1), Q(1,1), Q(1,1), Q(1,1), Q(1,1), Q(1,1), Q(1,1), Q(1,1), Q(1,1), Q(1,1), Q(2,1)>>, <<11>>)}
 MC_Slices == {}
-MC_Indices == {0, 10}
+MC_Indices == {10}
 MC_Fns == {}
 MC_SOps == {"+"}
 MC_VOps == {"*"}
